@@ -612,13 +612,56 @@ fn mk(xs: &[E]) -> Vec<(SItem, Pri)> {
     xs.iter().map(|(k, pl, p)| (SItem::new(*k, *pl), Pri::new(*p))).collect()
 }
 
-fn run_calls<T, I>(it: I, cs: &[Call], forget: bool, show: impl Fn(&T) -> String) -> String
+/// `count()` through one of several std consumers that are specified to give the same number on a well-behaved iterator
+/// (`count` itself, `fold`, `for_each`, `collect`, `sum`, `filter`, `enumerate().last()`): a wrong override of any of the
+/// iterator methods they are built on shows as a wrong count.  `v` is derived from the call program, so replays are exact.
+fn count_v<I: Iterator>(it: I, v: usize) -> usize {
+    match v % 7 {
+        0 => it.count(),
+        1 => it.fold(0usize, |a, _| a + 1),
+        2 => { let mut n = 0usize; it.for_each(|_| n += 1); n }
+        3 => it.collect::<Vec<_>>().len(),
+        4 => it.map(|_| 1usize).sum(),
+        5 => it.filter(|_| true).count(),
+        _ => it.enumerate().last().map(|(i, _)| i + 1).unwrap_or(0),
+    }
+}
+/// the same for double-ended iterators that perform no comparisons while advancing: also from the back (`rfold`, `next_back`)
+fn count_de<I: DoubleEndedIterator>(it: I, v: usize) -> usize {
+    match v % 10 {
+        7 => it.rev().count(),
+        8 => it.rev().fold(0usize, |a, _| a + 1),
+        9 => { let mut n = 0usize; it.rev().for_each(|_| n += 1); n }
+        w => count_v(it, w),
+    }
+}
+/// `last()` through consumers specified to return the same element (`last`, `fold`, `collect().pop()`, `max_by_key` with a
+/// constant key returns the last of equally maximal elements)
+fn last_v<I: Iterator>(it: I, v: usize) -> Option<I::Item> {
+    match v % 4 {
+        0 => it.last(),
+        1 => it.fold(None, |_, x| Some(x)),
+        2 => it.collect::<Vec<_>>().pop(),
+        _ => it.max_by_key(|_| 0u8),
+    }
+}
+fn last_de<I: DoubleEndedIterator>(it: I, v: usize) -> Option<I::Item> {
+    match v % 6 {
+        4 => it.rev().next(),
+        5 => { let mut it = it; it.next_back() }
+        w => last_v(it, w),
+    }
+}
+fn variant(ncalls: usize, idx: usize) -> usize { ncalls * 7 + idx * 3 + 1 }
+
+fn run_calls<T, I>(it: I, cs: &[Call], forget: bool, rev_ok: bool, show: impl Fn(&T) -> String) -> String
 where
     I: DoubleEndedIterator<Item = T> + ExactSizeIterator,
 {
     let mut out = String::new();
     let mut slot = Some(it);
-    for c in cs {
+    for (ci, c) in cs.iter().enumerate() {
+        let v = variant(cs.len(), ci);
         let it = match slot.as_mut() {
             Some(i) => i,
             None => { out.push_str(" gone"); continue; }
@@ -648,11 +691,11 @@ where
                     None => write!(out, " h {} none", lo).unwrap(),
                 }
             }
-            Call::Z => match slot.take().unwrap().last() {
+            Call::Z => match { let i = slot.take().unwrap(); if rev_ok { last_de(i, v) } else { last_v(i, v) } } {
                 Some(x) => write!(out, " s some {}", show(&x)).unwrap(),
                 None => out.push_str(" s none"),
             },
-            Call::C => write!(out, " l {}", slot.take().unwrap().count()).unwrap(),
+            Call::C => write!(out, " l {}", { let i = slot.take().unwrap(); if rev_ok { count_de(i, v) } else { count_v(i, v) } }).unwrap(),
         }
     }
     if forget {
@@ -903,7 +946,8 @@ pub fn apply<H: HX>(q: &mut AnyQ<H>, op: &Op, lk: Lookup) -> String {
             match q {
                 AnyQ::Pq(x) => {
                     let mut slot = Some(if VIA_REF.with(|v| v.get()) { (&mut *x).into_iter() } else { x.iter_mut() });
-                    for (c, w) in prog {
+                    for (ci, (c, w)) in prog.iter().enumerate() {
+                        let v = variant(prog.len(), ci);
                         let it = match slot.as_mut() { Some(i) => i, None => { out.push_str(" gone"); continue; } };
                         match c {
                             Call::F => yielded!(it.next(), w),
@@ -911,11 +955,11 @@ pub fn apply<H: HX>(q: &mut AnyQ<H>, op: &Op, lk: Lookup) -> String {
                             Call::H => out.push_str(&hint_str(it.size_hint())),
                             // `last()` / `count()` consume the guard (rebuild happens inside); the element `last()` returns
                             // is reported but not written
-                            Call::Z => match slot.take().unwrap().last() {
+                            Call::Z => match last_v(slot.take().unwrap(), v) {
                                 Some((i, p)) => write!(out, " s some {}", ent(i, p)).unwrap(),
                                 None => out.push_str(" s none"),
                             },
-                            Call::C => write!(out, " l {}", slot.take().unwrap().count()).unwrap(),
+                            Call::C => write!(out, " l {}", count_v(slot.take().unwrap(), v)).unwrap(),
                             _ => out.push_str(" u"),
                         }
                     }
@@ -923,7 +967,8 @@ pub fn apply<H: HX>(q: &mut AnyQ<H>, op: &Op, lk: Lookup) -> String {
                 }
                 AnyQ::Dpq(x) => {
                     let mut slot = Some(if VIA_REF.with(|v| v.get()) { (&mut *x).into_iter() } else { x.iter_mut() });
-                    for (c, w) in prog {
+                    for (ci, (c, w)) in prog.iter().enumerate() {
+                        let v = variant(prog.len(), ci);
                         let it = match slot.as_mut() { Some(i) => i, None => { out.push_str(" gone"); continue; } };
                         match c {
                             Call::F => yielded!(it.next(), w),
@@ -932,11 +977,11 @@ pub fn apply<H: HX>(q: &mut AnyQ<H>, op: &Op, lk: Lookup) -> String {
                             Call::M(k) => yielded!(it.nth_back(*k as usize), w),
                             Call::L => write!(out, " l {}", it.len()).unwrap(),
                             Call::H => out.push_str(&hint_str(it.size_hint())),
-                            Call::Z => match slot.take().unwrap().last() {
+                            Call::Z => match last_de(slot.take().unwrap(), v) {
                                 Some((i, p)) => write!(out, " s some {}", ent(i, p)).unwrap(),
                                 None => out.push_str(" s none"),
                             },
-                            Call::C => write!(out, " l {}", slot.take().unwrap().count()).unwrap(),
+                            Call::C => write!(out, " l {}", count_de(slot.take().unwrap(), v)).unwrap(),
                         }
                     }
                     if let Some(it) = slot { if *forget { std::mem::forget(it); } else { drop(it); } }
@@ -1012,14 +1057,14 @@ pub fn apply<H: HX>(q: &mut AnyQ<H>, op: &Op, lk: Lookup) -> String {
             deser_both(q, &text, q.kind())
         }
         Clear => { both!(q, x => x.clear()); "unit".into() }
-        Drain { forget, calls: cs } => both!(q, x => run_calls(x.drain(), cs, *forget, |(i, p): &(SItem, Pri)| ent(i, p))),
+        Drain { forget, calls: cs } => both!(q, x => run_calls(x.drain(), cs, *forget, true, |(i, p): &(SItem, Pri)| ent(i, p))),
         Iter(cs) => {
             let via = VIA_REF.with(|v| v.get());
-            both!(q, x => run_calls(if via { (&*x).into_iter() } else { x.iter() }, cs, false, |(i, p): &(&SItem, &Pri)| ent(i, p)))
+            both!(q, x => run_calls(if via { (&*x).into_iter() } else { x.iter() }, cs, false, true, |(i, p): &(&SItem, &Pri)| ent(i, p)))
         }
         IntoIter(cs) => {
             let c = q.clone_q();
-            both!(c, x => run_calls(x.into_iter(), cs, false, |(i, p): &(SItem, Pri)| ent(i, p)))
+            both!(c, x => run_calls(x.into_iter(), cs, false, true, |(i, p): &(SItem, Pri)| ent(i, p)))
         }
         IntoVec => { let c = q.clone_q(); keys(&both!(c, x => x.into_vec())) }
         IntoSortedVec => match q.clone_q() { AnyQ::Pq(x) => keys(&x.into_sorted_vec()), _ => unreachable!() },
@@ -1029,20 +1074,21 @@ pub fn apply<H: HX>(q: &mut AnyQ<H>, op: &Op, lk: Lookup) -> String {
             AnyQ::Pq(x) => {
                 let mut slot = Some(x.into_sorted_iter());
                 let mut out = String::new();
-                for c in cs {
+                for (ci, c) in cs.iter().enumerate() {
+                    let v = variant(cs.len(), ci);
                     let it = match slot.as_mut() { Some(i) => i, None => { out.push_str(" gone"); continue; } };
                     match c {
                         Call::F => out.push_str(&format!(" s {}", opt_eo(&it.next()))),
                         Call::N(k) => out.push_str(&format!(" s {}", opt_eo(&it.nth(*k as usize)))),
                         Call::H => out.push_str(&hint_str(it.size_hint())),
-                        Call::Z => out.push_str(&format!(" s {}", opt_eo(&slot.take().unwrap().last()))),
-                        Call::C => out.push_str(&format!(" l {}", slot.take().unwrap().count())),
+                        Call::Z => out.push_str(&format!(" s {}", opt_eo(&last_v(slot.take().unwrap(), v)))),
+                        Call::C => out.push_str(&format!(" l {}", count_v(slot.take().unwrap(), v))),
                         _ => out.push_str(" u"),
                     }
                 }
                 out
             }
-            AnyQ::Dpq(x) => run_calls(x.into_sorted_iter(), cs, false, |(i, p): &(SItem, Pri)| ent(i, p)),
+            AnyQ::Dpq(x) => run_calls(x.into_sorted_iter(), cs, false, false, |(i, p): &(SItem, Pri)| ent(i, p)),
         },
         Len => format!("{}", q.len()),
         IsEmpty => format!("{}", both!(q, x => x.is_empty())),
